@@ -14,6 +14,7 @@ EXPLANATION = (
     "diversity and region slots; (5) ROLLBACK — in DhtCoreEngine::add_node every failure after add_unified succeeded gives the "
     "slots back; (6) GATE-REACHED — the address string handed to add_node on the integrated path is one its SocketAddr / IpAddr "
     "parse can read; (7) FAMILY — an admission site holding an IpAddr analyses IPv4 through the IPv4 / unified path."
+    ' (8) release-guards — each counter is released under the same Option-presence conditions (asn / country known) under which it was taken; counter writers are closed under private helpers of the four add / remove routines.'
 )
 NOT_DECIDED = "LRU eviction of counters at the 50 000-entry tracking bound; arithmetic of get_per_ip_limit; concurrent admission (callers hold one write guard)"
 ASSUMPTIONS = ["LruCache get/put/pop semantics", "callers serialise access through the enforcer's RwLock"]
